@@ -75,6 +75,10 @@ pub struct TimeCase {
   /// other payload members
   pub extra: Vec<(String, Value)>,
   pub footer: Option<String>,
+  /// additionally call check_claim on the default parser: 1 with an ExpirationClaim, 2 with a NotBeforeClaim carrying
+  /// exactly the token's value (the default time rule for that claim must stay in force)
+  #[serde(default)]
+  pub also_check: u8,
 }
 
 pub struct DefaultTimeRules {
@@ -173,9 +177,19 @@ impl Sub for DefaultTimeRules {
       }
     }
     cl.nontrivial(!matches!(c_exp, TimeVal::Absent) || !matches!(c_nbf, TimeVal::Absent));
+    let check_spec = match (c.also_check, &exp, &nbf) {
+      (1, Some(Value::String(s)), _) => Some(ClaimSpec::Exp(s.clone())),
+      (2, _, Some(Value::String(s))) => Some(ClaimSpec::NbfOwned(s.clone())),
+      _ => None,
+    };
     let mut parser = new_parser(p, Layer::Prelude);
     if let Some(f) = c.footer.as_deref() {
       parser.footer(f);
+    }
+    if let Some(spec) = &check_spec {
+      if parser.check(spec).is_ok() {
+        cl.tag("check_claim-on-time-claim-too");
+      }
     }
     let r = parser.parse(&token, &lk);
     let (we, wn) = (want_exp(&c_exp, exp_strict), want_nbf(&c_nbf, nbf_strict));
@@ -278,13 +292,13 @@ fn extras() -> BoxedStrategy<Vec<(String, Value)>> {
 
 fn case(pid: &'static str, proto: Proto) -> BoxedStrategy<TimeCase> {
   let (e, n): (BoxedStrategy<TimeVal>, BoxedStrategy<TimeVal>) = if pid == "C11" { (time_val(), Just(TimeVal::Absent).boxed()) } else { (prop_oneof![3 => Just(TimeVal::Absent), 2 => past(), 3 => future(), 1 => not_a_timestamp().prop_map(TimeVal::NotATimestamp), 1 => Just(TimeVal::Null)].boxed(), time_val()) };
-  (gen::bytes32(), e, n, extras(), prop_oneof![Just(None), Just(Some("f".to_string()))]).prop_map(move |(seed, exp, nbf, extra, footer)| TimeCase { proto, seed, exp, nbf, extra, footer }).boxed()
+  (gen::bytes32(), e, n, extras(), prop_oneof![Just(None), Just(Some("f".to_string()))], prop_oneof![4 => Just(0u8), 1 => Just(1u8), 1 => Just(2u8)]).prop_map(move |(seed, exp, nbf, extra, footer, also_check)| TimeCase { proto, seed, exp, nbf, extra, footer, also_check }).boxed()
 }
 
 /// deterministic grid: every UTC offset hour -23..=23 (+ :59) x fractional digits x {past, future} near the boundary margins
 fn grid(pid: &'static str, proto: Proto) -> Vec<TimeCase> {
   let mut out = vec![];
-  let mk = |exp: TimeVal, nbf: TimeVal| TimeCase { proto, seed: vec![5u8; 32], exp, nbf, extra: vec![("sub".into(), json!("grid"))], footer: None };
+  let mk = |exp: TimeVal, nbf: TimeVal| TimeCase { proto, seed: vec![5u8; 32], exp, nbf, extra: vec![("sub".into(), json!("grid"))], footer: None, also_check: 0 };
   for h in -23i16..=23 {
     for (mi, digits) in [(0i16, 0u8), (59, 3), (30, 9)] {
       let off = h * 60 + if h < 0 { -mi } else { mi };
@@ -320,16 +334,102 @@ fn grid(pid: &'static str, proto: Proto) -> Vec<TimeCase> {
   out
 }
 
+// ---------------------------------------------------------------- the clock crosses the claim while a parser lives
+
+#[derive(Clone, Debug, Serialize, Deserialize)]
+pub struct CrossingCase {
+  pub proto: Proto,
+  /// milliseconds from "now" to the claim's instant (the first parse happens before it)
+  pub lead_ms: u32,
+  /// fractional digits written (3..=9)
+  pub digits: u8,
+}
+
+/// One parser object parses the same token before and after the clock has passed the claim's instant.
+pub struct ClockCrossing {
+  pub pid: &'static str,
+}
+
+impl Sub for ClockCrossing {
+  type Case = CrossingCase;
+  fn name(&self) -> String {
+    format!("{}/clock-crossing", self.pid)
+  }
+  fn check(&self, c: &CrossingCase, cl: &mut Classes) -> Verdict {
+    let p = c.proto;
+    let key = if self.pid == "C11" { "exp" } else { "nbf" };
+    let start = tgen::now();
+    let at_ns = start.0 as i128 * 1_000_000_000 + start.1 as i128 + c.lead_ms as i128 * 1_000_000;
+    let (s, n) = ((at_ns / 1_000_000_000) as i64, (at_ns % 1_000_000_000) as u32);
+    let text = tgen::render(s, n, &Rendering { offset_min: 0, digits: c.digits.clamp(3, 9), sep: 0, zulu: 1 });
+    let payload = json!({ key: text, "data": "crossing" }).to_string();
+    let km = keys::material(p, &[6u8; 32]);
+    let lk = km.lib().expect("valid key");
+    let token = match core_build(&lk, &[4u8; 32][..if p == Proto::V2L { 24 } else { 32 }], &payload, None, None) {
+      Ok(t) => t,
+      Err(_) => return Verdict::Discard,
+    };
+    cl.tag(p.label());
+    cl.nontrivial(true);
+    let mut parser = new_parser(p, Layer::Prelude);
+    let first = parser.parse(&token, &lk); // inside the margin: not judged
+    cl.tag(format!("first-parse:{}", if first.is_ok() { "accepted" } else { "rejected" }));
+    // wait until the instant is at least 2.1 s in the past
+    let target = std::time::Duration::from_millis(c.lead_ms as u64 + 2100);
+    let elapsed = {
+      let now = tgen::now();
+      let ns = (now.0 as i128 - start.0 as i128) * 1_000_000_000 + (now.1 as i128 - start.1 as i128);
+      std::time::Duration::from_nanos(ns.max(0) as u64)
+    };
+    if target > elapsed {
+      std::thread::sleep(target - elapsed);
+    }
+    let second = parser.parse(&token, &lk);
+    let fresh = new_parser(p, Layer::Prelude).parse(&token, &lk);
+    if self.pid == "C11" {
+      if fresh.is_ok() {
+        vio!("C11:accepted:exp:past:timestamp"; "a fresh default parser accepted a token whose exp {} is more than 2 s in the past", text);
+      }
+      if second.is_ok() {
+        vio!("C11:accepted-after-expiry-by-reused-parser:{}", p.label(); "a parser that had parsed the token before its exp ({}) still accepted it {} ms later, after it expired", text, target.as_millis());
+      }
+    } else {
+      if let Err(e) = &fresh {
+        vio!("C12:rejected-valid:{}:exp=absent:nbf=past", e.variant; "a fresh default parser rejected a token whose nbf {} is more than 2 s in the past: {}", text, e.text);
+      }
+      if let Err(e) = &second {
+        vio!("C12:rejected-after-nbf-by-reused-parser:{}", p.label(); "a parser that had parsed the token before its nbf ({}) still rejected it {} ms later: {}", text, target.as_millis(), e.text);
+      }
+    }
+    Verdict::Pass
+  }
+}
+
+pub fn crossing_cases() -> Vec<CrossingCase> {
+  let mut v = vec![];
+  for (i, proto) in [Proto::V4L, Proto::V2P, Proto::V3L, Proto::V1L].into_iter().enumerate() {
+    v.push(CrossingCase { proto, lead_ms: 1100 + 150 * i as u32, digits: 3 + 2 * i as u8 });
+  }
+  v
+}
+
 pub fn all_subs(pid: &'static str) -> Vec<DefaultTimeRules> {
   Proto::ALL.iter().map(|p| DefaultTimeRules { pid, proto: *p }).collect()
 }
 
 pub fn subs() -> Vec<Box<dyn DynSub>> {
-  all_subs("C11").into_iter().map(|s| Box::new(s) as Box<dyn DynSub>).collect()
+  let mut v: Vec<Box<dyn DynSub>> = all_subs("C11").into_iter().map(|s| Box::new(s) as Box<dyn DynSub>).collect();
+  v.push(Box::new(ClockCrossing { pid: "C11" }));
+  v
 }
 
 pub fn run_for(ctx: &Ctx, pid: &'static str, subs: &[DefaultTimeRules]) {
   let mut jobs: Vec<Job> = vec![];
+  // four parsers live through the instant of their token's claim (each case sleeps ~3.5 s; they run side by side)
+  let crossing: &'static ClockCrossing = Box::leak(Box::new(ClockCrossing { pid }));
+  for case in crossing_cases() {
+    jobs.push(Box::new(move || ctx.enumerate(crossing, std::iter::once(case), false)));
+  }
   for s in subs {
     if s.proto == Proto::V4L || s.proto == Proto::V2P {
       jobs.push(Box::new(move || ctx.enumerate(s, grid(pid, s.proto).into_iter(), false)));
